@@ -22,7 +22,8 @@ ASSUMPTIONS = [
 ]
 REQUIRED = ['one_shot_fired', 'persistent_fired_3plus', 'interval_zero', 'equal_expiries', 'datetime_deadline', 'reset_live_timer',
             'unregister_live_timer', 'unregister_persistent_after_firing', 'idle_wait_bounded_by_timer', 'two_timers_alive', 'sleep_task_present',
-            'unbounded_idle_without_timers', 'double_event_instances', 'virtual_time_calls', 'source_fire_seen']
+            'unbounded_idle_without_timers', 'double_event_instances', 'virtual_time_calls', 'source_fire_seen',
+            'datetime_deadline_in_non_utc_zone']
 REQUIRED_OBLIGATIONS = ['NOT_EARLY', 'ONE_SHOT_ONCE', 'ONE_SHOT_DETACHED', 'PERSISTENT_SPACING', 'NO_FIRE_AFTER_UNREGISTER', 'RESET_RESTARTS',
                         'NO_OVERSLEEP', 'PROMPT']
 WORKER_TIMEOUT = {'quick': 300, 'thorough': 1500}
@@ -39,6 +40,30 @@ T0 = 1_000_000.0
 
 
 def run_case(case, clock):
+    from datetime import datetime
+
+    from circuits import BaseComponent, Event, Timer, handler
+    from circuits.core.manager import sleep
+
+    import os
+    import time as _time_mod
+    old_tz = os.environ.get('TZ')
+    if case.get('tz'):
+        # naive datetime deadlines are local times: the whole-second rule must hold in every time zone
+        os.environ['TZ'] = case['tz']
+        _time_mod.tzset()
+    try:
+        return _run_case(case, clock)
+    finally:
+        if case.get('tz'):
+            if old_tz is None:
+                os.environ.pop('TZ', None)
+            else:
+                os.environ['TZ'] = old_tz
+            _time_mod.tzset()
+
+
+def _run_case(case, clock):
     from datetime import datetime
 
     from circuits import BaseComponent, Event, Timer, handler
@@ -121,6 +146,8 @@ def run_case(case, clock):
             _, _, tid, interval, persist = a
             if isinstance(interval, list):   # ['dt', seconds from now, microseconds]
                 marks.add('datetime_deadline')
+                if case.get('tz'):
+                    marks.add('datetime_deadline_in_non_utc_zone')
                 deadline = datetime.fromtimestamp(now + interval[1]).replace(microsecond=interval[2])
                 obj = Timer(deadline, Event.create('tmr', tid), persist=persist)
                 eff = float(int(deadline.timestamp())) - now   # the deadline counts at whole-second resolution
@@ -271,6 +298,9 @@ def corpus():
     cs.append({'name': 'zero-and-equal', 'end': 3.0, 'actions': [[0, N, 1, 0, False], [0, N, 2, 0.1, False], [0, N, 3, 0.1, True], [0, N, 4, 0.1, False],
                                                                 [0.5, N, 5, 0, True], [0.5, U, 5], [1.0, U, 3]]})
     cs.append({'name': 'datetime', 'end': 8.0, 'actions': [[0.3, N, 1, ['dt', 2.6, 700000], False], [0.3, N, 2, ['dt', 5.0, 1], True], [0, N, 3, 2.5, False]]})
+    for tz in ('EST5', 'CET-1', 'IST-5:30'):
+        cs.append({'name': 'datetime-' + tz, 'tz': tz, 'end': 8.0, 'actions': [[0.3, N, 1, ['dt', 2.6, 700000], False], [0.3, N, 2, ['dt', 5.0, 1], True],
+                                                                              [0, N, 3, 2.5, False], [1.0, N, 4, ['dt', 0.2, 999999], False]]})
     cs.append({'name': 'reset', 'end': 8.0, 'actions': [[0, N, 1, 1.0, False], [0.5, R, 1], [0, N, 2, 1.0, True], [2.5, R, 2], [0, N, 3, 2.5, False], [3.0, R, 3],
                                                         [0, N, 4, 0.25, True], [0.6, R, 4], [4.0, U, 4]]})
     cs.append({'name': 'unregister', 'end': 6.0, 'actions': [[0, N, 1, 1.0, False], [0.5, U, 1], [0, N, 2, 0.25, True], [1.1, U, 2], [0, N, 3, 2.5, True],
@@ -308,7 +338,10 @@ def gen_case(rng):
     for a in acts:
         if a[1] == 'sleeper' and len(a) == 2:
             a.append(round(rng.uniform(0.05, 1.5), 2))
-    return {'end': end, 'actions': acts}
+    case = {'end': end, 'actions': acts}
+    if any(isinstance(a[3], list) for a in acts if a[1] == 'new') and rng.random() < 0.6:
+        case['tz'] = rng.choice(['EST5', 'CET-1', 'IST-5:30', 'NZST-12'])
+    return case
 
 
 def plan(tier, seed):
